@@ -8,6 +8,6 @@ Extraction "model.ml"
   dl_step ll_step dl_empty dl_contents
   sb_step by_step sb_empty sb_view sb_len sb_nul_slot sb_prepare sb_step_a sb_prepare_a vec_step_a seq_step_a hm_step_a dl_step_a
   span_at span_sub spw_at spw_sub sp_view
-  vec_ipairs seq_pairs dl_pairs hm_for_pairs vec_mipairs_map select_from select_count hash_float32 g_eqb hash_string str_eqb
+  vec_ipairs seq_pairs dl_pairs hm_for_pairs vec_mipairs_map dl_mpairs_map span_ipairs select_from select_count hash_float32 g_eqb hash_string str_eqb
   hash_int hash_bool hash_float hash_long hash_short hash_rec hash_combine hash_array hash_ptr hash_span_int hash_union8 f_eqb rec_eqb roundpow2
   tok_eqb tok_hash tok_hash_weak tok_pred tok_canon NZ_OFF.
